@@ -7,11 +7,39 @@ From Coq Require Import String.
 From Coq Require Import List NArith Bool.
 From Wbxml Require Import Model.Codec Model.TablesDefs Gen.TablesData Model.Parser Model.Spec
      Proofs.ParserProofsBase Proofs.ParserProofsStr Proofs.ParserProofsAttr Proofs.ParserProofsElt Proofs.ParserProofsDoc
-     Proofs.ParserProofsTyped.
+     Proofs.ParserProofsTyped Proofs.ParserProofsStrict3 Proofs.ParserProofsWv.
 Import ListNotations.
 Local Open Scope N_scope.
 
-(* MAIN THEOREM, for every table (no hypothesis on the tables is needed: specification and parser both take
+(* MAIN THEOREM — FULL, unconditional (every table, every well-formed document, no premise):
+   the parser delivers exactly the events the specification assigns to the abstract document.
+   (The theorems below named _partial / _non_wv are the earlier, weaker forms, kept for reference: their
+   premise typed_wv_agree is now a theorem, C04_wv_typed_decoders.) *)
+Theorem C04_parser_reports_denotation : forall (tbl : list lang) (d : wdoc) (evs : list event),
+  denote tbl d = Some evs ->
+  parse tbl (S (length (serialize d))) (serialize d) = POk evs.
+Proof.
+  intros tbl d evs. apply (parse_denote tbl); [|exact typed_datetime_agree_proved].
+  intros l _ _. exact typed_wv_agree_proved.
+Qed.
+Print Assumptions C04_parser_reports_denotation.
+
+Theorem C04_wf_documents_parse : forall tbl d, wf tbl d ->
+  exists evs, denote tbl d = Some evs /\ parse tbl (S (length (serialize d))) (serialize d) = POk evs.
+Proof.
+  intros tbl d Hwf. unfold wf in Hwf. destruct (denote tbl d) as [evs|] eqn:E; [|congruence].
+  exists evs. split; [reflexivity|].
+  apply (parse_denote tbl); [|exact typed_datetime_agree_proved|exact E]. intros l _ _. exact typed_wv_agree_proved.
+Qed.
+Print Assumptions C04_wf_documents_parse.
+
+(* the Wireless Village opaque integer / date-time decoders agree with their specification *)
+Theorem C04_wv_typed_decoders : forall cur d o, bytes_okb d = true ->
+  spec_opaque (opaque_kind 2301 cur) d = Some o -> decode_wv_content cur d = POk o.
+Proof. exact typed_wv_agree_proved. Qed.
+Print Assumptions C04_wv_typed_decoders.
+
+(* EARLIER FORM, for every table (no hypothesis on the tables is needed: specification and parser both take
    the first row that matches, so a table change cannot break it) and every well-formed document: the parser,
    given one unit of fuel more than the length of the document, delivers exactly the events the specification
    assigns to the abstract document: header (charset, language), elements with token and literal tags under the
@@ -74,6 +102,33 @@ Proof.
   exact (element_ok l tb ver cs Hcs Hwv typed_datetime_agree_proved sw tag attrs hasc items).
 Qed.
 Print Assumptions C04_element_partial.
+
+(* THE STRICT DECODER IS A PROVED ORACLE (FULL, no premise, every table).
+   Spec.decode = unser (pure grammar reader: shortest-form integers, no trailing bytes) + strict_doc (terminated
+   string table, references only to entry starts, no switchPage before an extension) + denote.
+   On the serialization of a strict well-formed document it returns exactly denote of that document ... *)
+Theorem C04_strict_reader_inverts_serialize : forall tbl forced d evs,
+  denote_with tbl forced d = Some evs -> unser (serialize d) = Some d.
+Proof. exact unser_serialize. Qed.
+Print Assumptions C04_strict_reader_inverts_serialize.
+
+Theorem C04_strict_decoder_roundtrip : forall tbl d evs,
+  denote tbl d = Some evs -> strict_doc d = true -> decode tbl (serialize d) = Some evs.
+Proof. exact decode_serialize. Qed.
+Print Assumptions C04_strict_decoder_roundtrip.
+
+(* ... also when the caller names the language (as the users of the encoder do) ... *)
+Theorem C04_strict_decoder_lang_roundtrip : forall tbl id d evs,
+  denote_with tbl (find (fun l => l_id l =? id) tbl) d = Some evs -> strict_doc d = true ->
+  decode_lang tbl id (serialize d) = Some evs.
+Proof. exact decode_lang_serialize. Qed.
+Print Assumptions C04_strict_decoder_lang_roundtrip.
+
+(* ... and whatever it accepts is the denotation of a strict document that it read from those bytes *)
+Theorem C04_strict_decoder_sound : forall tbl bs evs, decode tbl bs = Some evs ->
+  exists d, unser bs = Some d /\ strict_doc d = true /\ denote tbl d = Some evs.
+Proof. exact decode_sound. Qed.
+Print Assumptions C04_strict_decoder_sound.
 
 (* string-table references: any offset inside the table, also mid-string and into an unterminated tail *)
 Theorem C04_string_table_reference : forall l tb ver cs i s, cs_ok cs -> str_at tb i = Some s ->
